@@ -68,8 +68,18 @@ def make_problem(pdesc, log, jitter=None):
         return SingleObjectiveProblem(lambda p: base(p), minimize=pdesc["minimize"])
     k = pdesc["k"]
 
+    buffer = [0.0] * k
+    returns = pdesc.get("returns", "fresh-list")
+
     def multi(p):
         v = base(p)
+        if returns == "reused-list":
+            # a fitness function that fills and returns one and the same list object on every call
+            for j in range(k):
+                buffer[j] = float(v + j)
+            return buffer
+        if returns == "ints-list":
+            return [int(v) + j for j in range(k)]
         return [v + j for j in range(k)]
 
     user = {"default": None, "first": lambda xs: xs[0], "negsum": lambda xs: -sum(xs)}[pdesc["agg"]]
@@ -87,6 +97,7 @@ def problem_descs(draw, tag):
         "minimize": draw(st.one_of(st.booleans(), st.lists(st.booleans(), min_size=k, max_size=k))),
         "agg": draw(st.sampled_from(["default", "default", "first", "negsum"])),
         "k": k,
+        "returns": draw(st.sampled_from(["fresh-list", "fresh-list", "reused-list", "ints-list"])),
     }
 
 
